@@ -122,10 +122,10 @@ def _evaluated_first(head, use) -> bool:
                 post(c)
             elif isinstance(c, ast.AST) and not isinstance(c, (ast.expr_context, ast.operator, ast.cmpop, ast.unaryop, ast.boolop)):
                 post(c)
-        if isinstance(n, (ast.Call, ast.Await, ast.Yield, ast.YieldFrom)):
-            order.append(("call", n))
-        elif n is use:
+        if n is use:
             order.append(("use", n))
+        elif isinstance(n, (ast.Call, ast.Await, ast.Yield, ast.YieldFrom)):
+            order.append(("call", n))
     post(head)
     for kind, n in order:
         if kind == "use":
@@ -256,3 +256,368 @@ def normalise(tree: ast.AST) -> dict:
         stats["merged_ifs"] += _merge_nested_ifs(fn)
         stats["negations_pushed"] += _nnf(fn)
     return stats
+
+
+# ---------------------------------------------------------------------------------------------------------------------
+# N5  single-caller private helpers (package level; applied by Index after the first scan)
+# ---------------------------------------------------------------------------------------------------------------------
+def _walk_own(fn):
+    """nodes of fn's own scope (nested function/class/lambda bodies excluded)"""
+    stack = list(ast.iter_child_nodes(fn))
+    while stack:
+        n = stack.pop()
+        yield n
+        if not isinstance(n, (ast.FunctionDef, ast.AsyncFunctionDef, ast.ClassDef, ast.Lambda)):
+            stack.extend(ast.iter_child_nodes(n))
+
+
+def _clone(n):
+    return ast.parse(ast.unparse(n)).body[0]
+
+
+def inline_single_callers(modules: dict, max_sites: int = 1, max_body: int = 12, known=()) -> list:
+    """N5: a private function / method (`_name`, not dunder) that is defined exactly once in the package, is not
+    decorated, not a generator, not recursive, never used as a value, and is called from exactly ONE site - which lies
+    in the same module (same class for a method called as `self._name(...)` / `cls._name(...)`) and has one of the forms
+
+        self._h(...)                      (statement; the helper returns no value)
+        x = self._h(...)                  (the helper's only `return <value>` is its last statement)
+        return self._h(...)               (tail call: the helper's returns become the caller's)
+        ... self._h(...) ...              (anywhere in an expression; the helper is `return <expr>` only)
+
+    is spliced into its caller, parameters substituted (or bound by an assignment when the argument is not a plain
+    name/attribute/constant and the parameter is read more than once or rebound), helper locals that would collide
+    renamed.  This is what "extract method" produces, read backwards: the caller gets the shape it had before the
+    extraction.  The helper's own definition stays in the module.  Returns [(helper, caller, form)]."""
+    defs, calls, other = {}, {}, {}
+    owner = {}
+    for m in modules.values():
+        for n in ast.walk(m.tree):
+            for c in ast.iter_child_nodes(n):
+                c._np = n
+        for cls in [None] + [c for c in ast.walk(m.tree) if isinstance(c, ast.ClassDef)]:
+            body = m.tree.body if cls is None else cls.body
+            for st in body:
+                if isinstance(st, (ast.FunctionDef, ast.AsyncFunctionDef)) and st.name.startswith("_") and not st.name.startswith("__"):
+                    defs.setdefault(st.name, []).append((m, cls, st))
+    # every function (for locating the caller of a call site)
+    for m in modules.values():
+        for n in ast.walk(m.tree):
+            if isinstance(n, ast.Attribute) and n.attr in defs:
+                par = getattr(n, "_np", None)
+                if isinstance(par, ast.Call) and par.func is n and isinstance(n.value, ast.Name) and n.value.id in ("self", "cls"):
+                    calls.setdefault(n.attr, []).append((m, par))
+                else:
+                    other[n.attr] = other.get(n.attr, 0) + 1
+            elif isinstance(n, ast.Name) and n.id in defs and isinstance(n.ctx, ast.Load):
+                par = getattr(n, "_np", None)
+                if isinstance(par, ast.Call) and par.func is n:
+                    calls.setdefault(n.id, []).append((m, par))
+                else:
+                    other[n.id] = other.get(n.id, 0) + 1
+            elif isinstance(n, ast.Constant) and isinstance(n.value, str) and n.value in defs:
+                other[n.value] = other.get(n.value, 0) + 1          # getattr(self, "_name") and the like
+    done = []
+    for name in sorted(defs):
+        ds = defs[name]
+        if name in known or len(ds) != 1 or other.get(name) or not (1 <= len(calls.get(name, [])) <= max_sites):
+            continue
+        hm, hcls, h = ds[0]
+        if len(calls[name]) > 1 and len(h.body) > max_body:
+            continue
+        plan_sites = calls[name]
+        # all-or-nothing: every call site must be inlinable, otherwise the helper is left alone everywhere
+        results = [_inline_one(name, hm, hcls, h, cm, call, dry=True) for cm, call in plan_sites]
+        if not all(results):
+            continue
+        for cm, call in plan_sites:
+            r = _inline_one(name, hm, hcls, h, cm, call, dry=False)
+            if r:
+                done.append(r)
+    return done
+
+
+def _inline_one(name, hm, hcls, h, cm, call, dry):
+    if True:
+        if cm is not hm or h.decorator_list or isinstance(h, ast.AsyncFunctionDef):
+            return None
+        if any(isinstance(x, (ast.Yield, ast.YieldFrom, ast.Await, ast.Global, ast.Nonlocal)) for x in ast.walk(h)):
+            return None
+        is_method = hcls is not None
+        if is_method != isinstance(call.func, ast.Attribute):
+            return None
+        # the enclosing function of the call, and (for methods) its class
+        caller = call
+        while caller is not None and not isinstance(caller, (ast.FunctionDef, ast.AsyncFunctionDef, ast.Lambda)):
+            caller = getattr(caller, "_np", None)
+        if caller is None or isinstance(caller, ast.Lambda) or caller is h:
+            return None
+        top = caller
+        ccls = None
+        while top is not None:
+            if isinstance(top, ast.ClassDef):
+                ccls = top
+                break
+            top = getattr(top, "_np", None)
+        if is_method and ccls is not hcls:
+            return None
+        if any(x is call for x in ast.walk(h)):
+            return None
+        # ---- parameters
+        a = h.args
+        if a.posonlyargs or a.kwonlyargs or a.vararg or a.kwarg:
+            return None
+        ps = [x.arg for x in a.args]
+        if is_method:
+            if not ps or ps[0] not in ("self", "cls"):
+                return None
+            ps = ps[1:]
+        if any(isinstance(x, ast.Starred) for x in call.args) or any(k.arg is None for k in call.keywords) or len(call.args) > len(ps):
+            return None
+        sub = dict(zip(ps, call.args))
+        for k in call.keywords:
+            if k.arg in ps and k.arg not in sub:
+                sub[k.arg] = k.value
+        for p_, d_ in zip(ps[len(ps) - len(a.defaults):], a.defaults):
+            sub.setdefault(p_, d_)
+        if set(sub) != set(ps):
+            return None
+        body = [_clone(st) for st in h.body if not (isinstance(st, ast.Expr) and isinstance(st.value, ast.Constant) and isinstance(st.value.value, str))]
+        if not body:
+            return None
+        shell = ast.FunctionDef(name="_", args=ast.arguments(posonlyargs=[], args=[], kwonlyargs=[], kw_defaults=[], defaults=[]), body=body, decorator_list=[], lineno=1)
+        _unelse(shell)
+        body = shell.body
+        own = [x for st in body for x in [st] + list(_walk_own(st))]
+        rets = [x for x in own if isinstance(x, ast.Return)]
+        stored = {x.id for x in own if isinstance(x, ast.Name) and isinstance(x.ctx, (ast.Store, ast.Del))}
+        reads = {}
+        for st in body:
+            for x in ast.walk(st):
+                if isinstance(x, ast.Name) and isinstance(x.ctx, ast.Load):
+                    reads[x.id] = reads.get(x.id, 0) + 1
+        # ---- form of the call site
+        stmt = getattr(call, "_np", None)
+        form = None
+        single_expr = len(body) == 1 and isinstance(body[0], ast.Return) and body[0].value is not None
+        if not single_expr and not (isinstance(stmt, (ast.Expr, ast.Return, ast.Assign, ast.AnnAssign)) and getattr(stmt, "value", None) is call):
+            # a multi-statement helper called inside a larger expression: when the call is the first thing the statement
+            # evaluates it can be hoisted into a temporary (`t = helper(...)`), which is then the assign form
+            S = call
+            while S is not None and not isinstance(S, ast.stmt):
+                S = getattr(S, "_np", None)
+            head = _head(S) if S is not None else None
+            if head is None or not any(x is call for x in ast.walk(head)) or not _evaluated_first(head, call):
+                return None
+            if dry:
+                return True if rets and _tail_returns([_clone(x) for x in body], lambda e: []) is not None else None
+            tmpn = f"{name.strip('_')}__value"
+            par = getattr(call, "_np", None)
+            ref = ast.copy_location(ast.Name(id=tmpn, ctx=ast.Load()), call)
+            for f_, v in ast.iter_fields(par):
+                if v is call:
+                    setattr(par, f_, ref)
+                elif isinstance(v, list):
+                    for i_, x in enumerate(v):
+                        if x is call:
+                            v[i_] = ref
+            new_stmt = ast.copy_location(ast.Assign(targets=[ast.Name(id=tmpn, ctx=ast.Store())], value=call), S)
+            sp = getattr(S, "_np", None)
+            placed = False
+            for fld in ("body", "orelse", "finalbody"):
+                lst = getattr(sp, fld, None)
+                if isinstance(lst, list) and any(x is S for x in lst):
+                    k_ = [j for j, x in enumerate(lst) if x is S][0]
+                    lst.insert(k_, new_stmt)
+                    placed = True
+            if not placed:
+                return None
+            new_stmt._np = sp
+            call._np = new_stmt
+            ref._np = par
+            stmt = new_stmt
+        if isinstance(stmt, ast.Expr) and stmt.value is call:
+            if all(r.value is None or (isinstance(r.value, ast.Constant) and r.value.value is None) for r in rets):
+                if not any(r is not body[-1] for r in rets):
+                    form = "statement"
+                elif _tail_returns([_clone(x) for x in body], lambda e: []) is not None:
+                    form = "statement-structured"
+        elif isinstance(stmt, ast.Return) and stmt.value is call:
+            form = "tail"
+        elif isinstance(stmt, (ast.Assign, ast.AnnAssign)) and stmt.value is call:
+            if len(rets) == 1 and rets[0] is body[-1] and rets[0].value is not None:
+                form = "assign"
+            elif isinstance(stmt, ast.Assign) and rets and _tail_returns([_clone(x) for x in body], lambda e: []) is not None:
+                form = "assign-structured"
+        if form is None and single_expr:
+            form = "expression"
+        if form is None:
+            return None
+        # the statement list that holds the call-site statement (not needed for the expression form)
+        holder = None
+        if form != "expression":
+            par = getattr(stmt, "_np", None)
+            for fld in ("body", "orelse", "finalbody"):
+                lst = getattr(par, fld, None)
+                if isinstance(lst, list) and any(x is stmt for x in lst):
+                    holder = lst
+            if holder is None:
+                return None
+        if dry:
+            return True
+        # ---- bind parameters
+        pre = []
+        simple = lambda e: isinstance(e, (ast.Name, ast.Constant)) or (isinstance(e, ast.Attribute) and simple(e.value))
+        mapping = {}
+        caller_names = {x.id for x in ast.walk(caller) if isinstance(x, ast.Name)} | {x.arg for x in ast.walk(caller) if isinstance(x, ast.arg)}
+        ren = {}
+        for p_ in ps:
+            arg = sub[p_]
+            if p_ in stored or (not simple(arg) and reads.get(p_, 0) > 1) or form == "expression" and not simple(arg) and reads.get(p_, 0) > 1:
+                if form == "expression":
+                    mapping = None
+                    break
+                newp = p_ if p_ not in caller_names else f"{p_}__{name.strip('_')}"
+                ren[p_] = newp
+                pre.append(ast.Assign(targets=[ast.Name(id=newp, ctx=ast.Store())], value=arg, lineno=getattr(stmt, "lineno", 1)))
+            else:
+                mapping[p_] = arg
+        if mapping is None:
+            return None
+        for l_ in stored - set(ps):
+            if l_ in caller_names:
+                ren[l_] = f"{l_}__{name.strip('_')}"
+
+        class R(ast.NodeTransformer):
+            def visit_Name(self, n):
+                if n.id in ren:
+                    return ast.copy_location(ast.Name(id=ren[n.id], ctx=n.ctx), n)
+                if n.id in mapping and isinstance(n.ctx, ast.Load):
+                    return _clone_expr(mapping[n.id])
+                return n
+
+            def visit_FunctionDef(self, n):       # nested definitions keep their own parameters
+                return n if any(x.arg in mapping or x.arg in ren for x in ast.walk(n.args) if isinstance(x, ast.arg)) else self.generic_visit(n)
+
+            visit_Lambda = visit_FunctionDef
+        body = [R().visit(st) for st in body]
+        line = getattr(stmt if form != "expression" else call, "lineno", 1)
+        for st in body + pre:
+            for x in ast.walk(st):
+                if hasattr(x, "lineno"):
+                    x.lineno = line
+                    x.end_lineno = line
+        if form == "expression":
+            new = body[0].value
+            par = getattr(call, "_np", None)
+            for f_, v in ast.iter_fields(par):
+                if v is call:
+                    setattr(par, f_, new)
+                elif isinstance(v, list):
+                    for i, x in enumerate(v):
+                        if x is call:
+                            v[i] = new
+        else:
+            i = [k for k, x in enumerate(holder) if x is stmt][0]
+            if form == "assign":
+                stmt.value = body[-1].value
+                holder[i:i + 1] = pre + body[:-1] + [stmt]
+            elif form == "assign-structured":
+                def mk(e, stmt=stmt, line=line):
+                    return [ast.Assign(targets=[_clone_target(t) for t in stmt.targets], value=e if e is not None else ast.Constant(value=None), lineno=line)]
+                holder[i:i + 1] = pre + _tail_returns(body, mk)
+            elif form == "statement-structured":
+                holder[i:i + 1] = pre + (_tail_returns(body, lambda e: []) or [ast.Pass(lineno=line)])
+            elif form == "tail":
+                tail = body if _terminates(body) else body + [ast.Return(value=ast.Constant(value=None), lineno=line)]
+                holder[i:i + 1] = pre + tail
+            else:
+                if isinstance(body[-1], ast.Return):
+                    body = body[:-1]
+                holder[i:i + 1] = pre + (body or [ast.Pass(lineno=line)])
+        ast.fix_missing_locations(cm.tree)
+        for n in ast.walk(caller):
+            for c in ast.iter_child_nodes(n):
+                c._np = n
+        return (f"{hm.name}::{(hcls.name + '.') if hcls else ''}{name}", f"{cm.name}::{(ccls.name + '.') if ccls else ''}{caller.name}", form)
+
+
+def rule_vocabulary() -> set:
+    """Every private-looking identifier that occurs anywhere in the rule packs and the engine: helpers the rules know by
+    name are never looked through (they are anchors); helpers the rules have never heard of are."""
+    import os
+    import re
+    here = os.path.dirname(os.path.abspath(__file__))
+    out = set()
+    for dp, dn, fns in os.walk(here):
+        for f in fns:
+            if f.endswith(".py"):
+                with open(os.path.join(dp, f), encoding="utf-8") as fh:
+                    out.update(re.findall(r"(?<![A-Za-z0-9_])_[A-Za-z][A-Za-z0-9_]*", fh.read()))
+    spec = os.path.join(os.path.dirname(here), "spec")
+    if os.path.isdir(spec):
+        for f in os.listdir(spec):
+            if f.endswith(".json"):
+                with open(os.path.join(spec, f), encoding="utf-8") as fh:
+                    out.update(re.findall(r"(?<![A-Za-z0-9_])_[A-Za-z][A-Za-z0-9_]*", fh.read()))
+    return out
+
+
+def _mk_if(st, b, e):
+    """`if c: b else: e` with empty branches repaired (`if c: <nothing> else: e` is `if not c: e`)."""
+    if not b and not e:
+        return ast.copy_location(ast.Expr(value=st.test), st)       # only the test is evaluated
+    if not b:
+        t = st.test
+        st.test = t.operand if isinstance(t, ast.UnaryOp) and isinstance(t.op, ast.Not) else ast.copy_location(ast.UnaryOp(op=ast.Not(), operand=t), t)
+        st.body, st.orelse = e, []
+        return st
+    st.body, st.orelse = b, e
+    return st
+
+
+def _tail_returns(stmts, make):
+    """Rewrite a statement list whose `return`s are all in tail position (last statement, or last statement of an
+    if-branch whose remaining siblings then form the other branch) into return-free statements, each
+    `return E` replaced by make(E) (a list of statements).  None when some return is not in tail position."""
+    if not stmts:
+        return make(None)
+    out = []
+    for i, st in enumerate(stmts):
+        rest = stmts[i + 1:]
+        has_ret = any(isinstance(x, ast.Return) for x in [st] + list(_walk_own(st)))
+        if not has_ret:
+            out.append(st)
+            continue
+        if isinstance(st, ast.Return):
+            return out + make(st.value)          # anything after a return is dead
+        if isinstance(st, ast.If):
+            if _terminates(st.body) and not st.orelse:
+                b = _tail_returns(st.body, make)
+                e = _tail_returns(rest, make)
+                if b is None or e is None:
+                    return None
+                return out + [_mk_if(st, b, e)]
+            if not rest:
+                b = _tail_returns(st.body, make)
+                e = _tail_returns(st.orelse, make)
+                if b is None or e is None:
+                    return None
+                return out + [_mk_if(st, b, e)]
+            if _terminates(st.body) and _terminates(st.orelse):
+                b = _tail_returns(st.body, make)
+                e = _tail_returns(st.orelse, make)
+                if b is None or e is None:
+                    return None
+                return out + [_mk_if(st, b, e)]
+            return None
+        return None                                  # a return inside a loop / try / with: not structured
+    return out + make(None)
+
+
+def _clone_target(t):
+    return ast.parse(ast.unparse(t) + " = 0").body[0].targets[0]
+
+
+def _clone_expr(e):
+    return ast.parse(ast.unparse(e), mode="eval").body
